@@ -30,8 +30,8 @@ class Result:
     def violation(self, what, script, known=None):
         """script: self-contained python source that exits non-zero on the real code when the violation is there"""
         for k in (known or []):
-            if k.get("status") == "known" and k.get("property") == self.pid and k.get("bounded_match") and \
-                    k["bounded_match"] in what:
+            pats = ([k["bounded_match"]] if k.get("bounded_match") else []) + list(k.get("bounded_match_any", []))
+            if k.get("status") == "known" and k.get("property") == self.pid and any(p_ in what for p_ in pats):
                 if not any(x["id"] == k["id"] for x in self.d["known"]):
                     self.d["known"].append({"id": k["id"], "what": k["what"]})
                 return
